@@ -820,6 +820,12 @@ class Interp:
             return list(a) + list(b)
         if a is SHAPE or b is SHAPE:
             return SHAPE
+        if isinstance(a, str) and isinstance(b, str) and isinstance(op, ast.Add):
+            return a + b
+        if isinstance(a, str) and isinstance(op, ast.Mult) and isinstance(b, Poly) and b.is_const():
+            return a * int(b.const_value())
+        if isinstance(b, str) and isinstance(op, ast.Mult) and isinstance(a, Poly) and a.is_const():
+            return b * int(a.const_value())
         if isinstance(a, (list, tuple)) and isinstance(op, ast.Mult) and isinstance(b, Poly) and b.is_const():
             return a * int(b.const_value())
         if isinstance(b, (list, tuple)) and isinstance(op, ast.Mult) and isinstance(a, Poly) and a.is_const():
@@ -1444,6 +1450,11 @@ class Interp:
                     it_ = self.iterable(tup[0], "map")
                     out_.append(list(it_) if fnode.id == "list" else tuple(it_))
                     continue
+                if isinstance(fnode, ast.Name) and fnode.id == "len" and "len" not in self.env:
+                    if not isinstance(tup[0], (str, list, tuple, dict, set)):
+                        raise Undecided("len of a tensor")
+                    out_.append(Poly.const(len(tup[0])))
+                    continue
                 if isinstance(fnode, ast.Name) and fnode.id in ("float", "int", "str") and fnode.id not in self.env:
                     out_.append(tup[0] if fnode.id != "str" else str(tup[0]))
                     continue
@@ -1489,6 +1500,20 @@ class Interp:
             raise Undecided("getattr")
         if name == "bool":
             return self.truth(ev(args[0]))
+        if name == "str" and isinstance(f, ast.Name) and "str" not in self.env and len(args) == 1:
+            v = ev(args[0])
+            if isinstance(v, str):
+                return v
+            if isinstance(v, Poly) and v.is_const() and v.const_value().denominator == 1:
+                return str(int(v.const_value()))
+            if v is None or isinstance(v, bool):
+                return str(v)
+            raise Undecided("str() of a symbolic value")
+        if name == "type" and isinstance(f, ast.Name) and "type" not in self.env and len(args) == 1:
+            v = ev(args[0])
+            if isinstance(v, Obj) and "__class__" in v.attrs:
+                return v.attrs["__class__"]
+            raise Undecided("type() of an object without a modelled class")
         if name == "dict" and isinstance(f, ast.Name):
             d = dict(ev(args[0])) if args else {}
             for kwn in e.keywords:
